@@ -1291,11 +1291,6 @@ where
 	C: NodeClient + 'a,
 	K: Keychain + 'a,
 {
-	let parent_key_id = {
-		wallet_lock!(wallet_inst, w);
-		w.parent_key_id()
-	};
-
 	let mut client = {
 		wallet_lock!(wallet_inst, w);
 		w.w2n_client().clone()
@@ -1322,11 +1317,29 @@ where
 			if let Some(k) = kernel {
 				debug!("Kernel Retrieved: {:?}", k);
 				wallet_lock!(wallet_inst, w);
-				let mut batch = w.batch(keychain_mask)?;
-				tx.confirmed = true;
-				tx.update_confirmation_ts();
-				batch.save_tx_log_entry(tx.clone(), &parent_key_id)?;
-				batch.commit()?;
+				// `tx` is a copy taken under an earlier lock acquisition: the stored entry
+				// may have been cancelled, finalized or confirmed by another operation
+				// since. Re-read it and only set the confirmation fields of the current
+				// record, and only if it is still outstanding and still carries the
+				// kernel excess that was looked up.
+				let current = w
+					.tx_log_iter()
+					.find(|t| t.id == tx.id && t.parent_key_id == tx.parent_key_id);
+				if let Some(mut cur) = current {
+					let outstanding = !cur.confirmed
+						&& (cur.tx_type == TxLogEntryType::TxReceived
+							|| cur.tx_type == TxLogEntryType::TxSent
+							|| cur.tx_type == TxLogEntryType::TxReverted);
+					if outstanding && cur.kernel_excess == Some(e) {
+						cur.confirmed = true;
+						cur.update_confirmation_ts();
+						let parent_key_id = cur.parent_key_id.clone();
+						let mut batch = w.batch(keychain_mask)?;
+						batch.save_tx_log_entry(cur.clone(), &parent_key_id)?;
+						batch.commit()?;
+					}
+					*tx = cur;
+				}
 			}
 		} else {
 			warn!("Attempted to update via kernel excess for transaction {:?}, but kernel excess was not stored", tx.tx_slate_id);
